@@ -223,7 +223,7 @@ class Prov:
                 names = rv.j["fields"]
             elif ak in ("closure", "coroutine"):
                 what = "%s:%s" % (ak, rv.j["def"])
-                names = rv.j["fields"]
+                names = [n[6:] if n.startswith("_ref__") else n for n in rv.j["fields"]]
             else:
                 what = ak
                 names = [str(i) for i in range(len(rv.ops))]
